@@ -1,6 +1,6 @@
 (* Property C14 — name order, equality, prefix, hash and URI form are mutually consistent.
    Only theorem statements closed by `exact`, each followed by Print Assumptions. *)
-From Names Require Import Model Order Uri Dec UriRt Wire Spec SpecOk.
+From Names Require Import Model Order Uri FastOk Dec UriRt Wire Spec SpecOk.
 Open Scope N_scope.
 
 (* Comparison is a total order ... *)
@@ -123,6 +123,13 @@ Theorem oracle_sound :
   (forall c, crt_ok c (comp_from_str (comp_to_str c)) (comp_from_str (comp_to_canon c)) = true).
 Proof. exact (conj model_triple_ok (conj model_pair_ok (conj model_comp_ok (conj model_rt_ok model_crt_ok)))). Qed.
 Print Assumptions oracle_sound.
+
+(* The runner executes linear-time variants of the three parsers (List.rev is quadratic); they are the same functions. *)
+Theorem runner_parsers_equal : forall s,
+  name_from_str_f s = name_from_str s /\ comp_pattern_from_str_f s = comp_pattern_from_str s /\
+  name_pattern_from_str_f s = name_pattern_from_str s.
+Proof. exact (fun s => conj (name_from_str_f_eq s) (conj (comp_pattern_from_str_f_eq s) (name_pattern_from_str_f_eq s))). Qed.
+Print Assumptions runner_parsers_equal.
 
 (* non-vacuity *)
 Example c14_example_uri :
